@@ -32,9 +32,9 @@ def _judge(ctx, module, cfg, programs, runner, flag, label):
     return len(bad)
 
 
-def _plain(ctx, module, cfg, programs, runner, label):
+def _plain(ctx, module, cfg, programs, runner, label, chunk=1500):
     traces = [runner(p) for p in programs]
-    verdicts = judge_mod.judge(module, cfg, traces, chunk=1500)
+    verdicts = judge_mod.judge(module, cfg, traces, chunk=chunk)
     bad = [(v, t) for v, t in zip(verdicts, traces) if not v.accepted]
     ctx.evaluations += len(traces)
     ctx.traces_validated += len(traces) - len(bad)
@@ -79,9 +79,18 @@ def api_growth(ctx, n):
     _plain(ctx, "World_Trace.tla", "World_Trace.cfg", progs, Wd.run_program, "get_dimensions / distance_sqr / PositionComponent accessors")
 
 
+def composition(ctx, n):
+    from ..drivers import core as CO
+    progs = [CO.random_program(ctx.rng, length=ctx.rng.choice([8, 14, 20])) for _ in range(n)]
+    _plain(ctx, "Core_Trace.tla", "Core_Trace.cfg", progs, CO.run_program,
+           "composition: systems acting on the population while the scheduler steps (Scheduler x World, no interference)",
+           chunk=5)      # named instances: TLC re-reads the trace file per evaluation, so the batches are kept small
+
+
 def run(ctx):
     rng = ctx.rng
     n = 150 if ctx.quick else 1500
+    composition(ctx, 120 if ctx.quick else 1200)
     api_growth(ctx, n)
     progs = [S.random_program(rng, n_ids=4, length=25, p_mut=0.2, windows=True, multi=False) for _ in range(n)]
     _judge(ctx, "Scheduler_Trace.tla", "Scheduler_Trace.cfg", progs, S.run_program, S.ALIAS, "addSystem / removeSystem / executeSystems")
